@@ -68,7 +68,7 @@ IsFlow(f) == /\ IsAddr(f.sip) /\ IsAddr(f.dip) /\ Len(f.sip) = Len(f.dip)
              /\ f.fam = Fam(f.sip)
              /\ f.dport \in 0..65535 /\ f.proto \in 0..255
 
-\* The flow universe of the live-query family: 12 IPv4 and 12 IPv6 flows that a capture can
+\* The flow universe of the live-query family: 12 + 2 IPv4 and 12 + 2 IPv6 flows that a capture can
 \* actually hold (this is the only difference to spec/cond/Flows.tla): flows of protocols
 \* without ports (icmp 1, icmpv6 58, 0, 255) have destination port 0 - the packet rule
 \* (spec/packet/PacketRule.tla) only keeps ports for TCP and UDP.  Ports still include the
@@ -99,7 +99,13 @@ FlowSeq == <<
   Flow(21, V6P, V6L, 256,   17),
   Flow(22, V6Q, V6Q, 255,   6),
   Flow(23, V6L, V6L, 0,     255),
-  Flow(24, V6M, V6P, 0,     0) >>
+  Flow(24, V6M, V6P, 0,     0),
+  \* conversations between two ephemeral ports (client 40001, server 50000) and what they look like
+  \* with the roles swapped: nothing but the handshake tells which side is the server
+  Flow(25, V4A, V4B, 50000, 6),
+  Flow(26, V4B, V4A, 40001, 6),
+  Flow(27, V6P, V6Q, 50000, 6),
+  Flow(28, V6Q, V6P, 40001, 6) >>
 
 NFlows == Len(FlowSeq)
 FlowIds == 1..NFlows
